@@ -14,20 +14,6 @@ theorem aflower_cases (c : Nat) (h : Card.isAFlower c = true) :
   simp [Card.isAFlower] at h
   omega
 
-theorem cvv_translate_agree : ∀ tbl, cvv_translate = some tbl →
-    ∀ c, Card.isAFlower c = true → translate1 tbl c = c - 49 := by
-  intro tbl h; unfold cvv_translate at h; cases h
-  all_goals
-    intro c hc
-    rcases aflower_cases c hc with h | h | h | h | h | h <;> subst h <;> decide
-
-theorem pvv_translate_agree : ∀ tbl, pvv_translate = some tbl →
-    ∀ c, Card.isAFlower c = true → translate1 tbl c = c - 49 := by
-  intro tbl h; unfold pvv_translate at h; cases h
-  all_goals
-    intro c hc
-    rcases aflower_cases c hc with h | h | h | h | h | h <;> subst h <;> decide
-
 /-- the model's second pass is `translate` by a table that maps `a..f` as the source's does -/
 theorem decimalize_by (tbl : List (Nat × Nat)) (ht : ∀ c, Card.isAFlower c = true → translate1 tbl c = c - 49)
     (hex : PyStr) (n : Nat) :
@@ -43,23 +29,5 @@ theorem decimalize_by (tbl : List (Nat × Nat)) (ht : ∀ c, Card.isAFlower c = 
     have hc' := (List.mem_filter.mp (List.mem_of_mem_take hc)).2
     exact (ht c hc').symm
   · rfl
-
-/-- CVV and PVV: the model's second pass is `translate` by the table written in the source -/
-theorem decimalize_by_table (hex : PyStr) (n : Nat) :
-    (∀ tbl, cvv_translate = some tbl → Card.decimalize hex n =
-      (let d := (hex.filter Card.isDecC).take n
-       if d.length < n then d ++ ((hex.filter Card.isAFlower).take (n - d.length)).map (translate1 tbl) else d)) ∧
-    (∀ tbl, pvv_translate = some tbl → Card.decimalize hex n =
-      (let d := (hex.filter Card.isDecC).take n
-       if d.length < n then d ++ ((hex.filter Card.isAFlower).take (n - d.length)).map (translate1 tbl) else d)) :=
-  ⟨fun tbl h => decimalize_by tbl (cvv_translate_agree tbl h) hex n,
-   fun tbl h => decimalize_by tbl (pvv_translate_agree tbl h) hex n⟩
-
-/-- every `str.maketrans` source alphabet in `pin.py` is `0123456789ABCDEF`, i.e. position `v` holds the upper-case hex
-digit of value `v` — which is what lets the model index the conversion table by `hexVal` -/
-theorem ibm_alphabet_agree : ∀ l, ibm_maketrans_from = some l →
-    l.all (fun a => a.length == 16 && (List.range 16).all (fun v => hexVal (a.getD v 0) == some v && a.getD v 0 == hexDigitU v)) = true := by
-  intro l h; unfold ibm_maketrans_from at h; cases h
-  all_goals decide +kernel
 
 end Psec.Tables
